@@ -18,7 +18,7 @@ func init() {
 			"(R2) ActorOf returns without registration or tell when construction fails, without tell on a name conflict, and otherwise registers, records the child and tells OnLaunch before any other message to the child; " +
 			"(R3) the construction chain runs prelaunch before the mailbox and behaviour are installed and a failing step aborts construction; (R4) the restart success path replaces the actor through the provider, resets the behaviour stack to that actor's OnReceive, sets running before telling OnLaunch and resuming, and never touches registration, ref or mailbox; " +
 			"(R5) no behaviour invocation is reachable for a killed non-zombie actor (guard truth table, shared with C03); (R6) the kill chain's partial order and OnKill-before-own-OnKilled in the kill routine. " +
-			"(R2, addition) every event published by ActorOf after the registration is dominated by the OnLaunch tell: a subscriber reacting to the spawn announcement finds OnLaunch already queued. (R7) a deferred recover in a function that reports an outcome assigns that outcome (or panics again) on every path from the edge on which a panic was recovered; (R8) every behaviour run reachable from the envelope handler executes the value the handler chose (empty for a zombie), handed down unchanged; (R9) the restart step must not enqueue the new incarnation's OnLaunch behind pending system messages (F36, fixed): it hands OnLaunch to the context's own envelope handler. (R10 = C19.R8) a reference memoises only the mailbox of the context found registered at its path, never a miss: ActorOf sends OnLaunch through the context's own reference object, which user code can have had resolved from OnPrelaunch before the registration — a pinned miss would dead-letter OnLaunch and everything after it. (R11) every Push onto the behaviour stack in the actor package receives the caller's behaviour or a method value bound to a load of the actor field made in the same function — never a function value cached in another field, which after a provider restart still belongs to the previous instance. NOT decided: the complete per-actor delivery order at run time.",
+			"(R2, addition) every event published by ActorOf after the registration is dominated by the OnLaunch tell: a subscriber reacting to the spawn announcement finds OnLaunch already queued. (R7) a deferred recover in a function that reports an outcome assigns that outcome (or panics again) on every path from the edge on which a panic was recovered; (R8) every behaviour run reachable from the envelope handler executes the value the handler chose (empty for a zombie), handed down unchanged; (R9) the restart step must not enqueue the new incarnation's OnLaunch behind pending system messages (F36, fixed): it hands OnLaunch to the context's own envelope handler. (R10 = C19.R8) a reference memoises only the mailbox of the context found registered at its path, never a miss: ActorOf sends OnLaunch through the context's own reference object, which user code can have had resolved from OnPrelaunch before the registration — a pinned miss would dead-letter OnLaunch and everything after it. (R11) every Push onto the behaviour stack in the actor package receives the caller's behaviour or a method value bound to a load of the actor field made in the same function — never a function value cached in another field, which after a provider restart still belongs to the previous instance. (R12) in the combination actor's error-returning hooks, from the err != nil edge of a component's hook no path reaches the next iteration of the loop over the components. NOT decided: the complete per-actor delivery order at run time.",
 		Assumptions: []string{"chain steps are exactly the appended functions (chain idiom)"},
 		Rules: []Rule{
 			{ID: "C05.R1", Min: 2, Desc: "OnLaunch addressing", Fn: c05Launch},
@@ -29,6 +29,7 @@ func init() {
 			{ID: "C05.R9", Min: 1, Desc: "the OnLaunch of a restarted incarnation is handled before anything queued behind the restart", Fn: c05RestartLaunchFirst},
 			{ID: "C05.R10", Min: 1, Desc: "the reference ActorOf sends OnLaunch through cannot have memoised a miss (C19.R8)", Fn: c19CacheOnlyFound},
 			{ID: "C05.R11", Min: 3, Desc: "every base behaviour the library pushes is bound to the current actor instance (no cached method value survives a provider restart)", Fn: c05BaseBehaviourIsCurrent},
+			{ID: "C05.R12", Min: 2, Desc: "the library's combination actor reports the first failing component of a hook", Fn: c05CombinationPropagates},
 			{ID: "C05.R8", Min: 2, Desc: "every behaviour run made while handling an envelope uses the behaviour chosen at the top of the handler (the empty one for a zombie)", Fn: c05ChosenBehaviour},
 			{ID: "C05.R7", Min: 1, Desc: "a recovered panic is never turned into success (a hook that panics fails the construction / restart step)", Fn: recoveredPanicsAreFailures},
 			{ID: "C05.R6", Min: 5, Desc: "kill-chain order", Fn: c05KillChain},
